@@ -584,14 +584,27 @@ func gen(c *lib.Ctx, rng *rand.Rand) []c08case {
 		{"timesubsstpp_en/segtimeline_1", "testpic_2s/timestpp-en/90001.m4s", "100000", "404", "time is no segment start"},
 		{"ato_2/chunkdur_0.5", "testpic_2s/V300/45.m4s", "100000", "", ""}, // chunk duration 0: one chunk per sample since /repo 1ce6842
 		{"chunkdur_1/ato_-2147481.648", "testpic_2s/V300/45.m4s", "100000", "", ""},
-		{"chunkdur_1/ato_-1", "testpic_2s/V300/45.m4s", "100000", "", ""},
-		{"chunkdur_1/ato_-3600", "testpic_2s/V300/45.m4s", "100000", "", ""},
+		{"chunkdur_1/ato_-1", "testpic_2s/V300/45.m4s", "100000", "4xx", "chunked mode with negative ato"},
+		{"chunkdur_1/ato_-3600", "testpic_2s/V300/45.m4s", "100000", "4xx", "chunked mode with negative ato"},
 		{"ato_1.5/chunkdur_0.5", "testpic_2s/V300/45.m4s", "100000", "", ""},
 		{"ato_1/chunkdur_0.5", "testpic_2s/A48/45.m4s", "100000", "", ""},
-		{"ato_3/chunkdur_0.5", "testpic_2s/V300/45.m4s", "100000", "", ""},
+		{"ato_3/chunkdur_0.5", "testpic_2s/V300/45.m4s", "100000", "4xx", "chunked mode with ato above the segment duration"},
 		{"ato_inf/chunkdur_1", "testpic_2s/V300/45.m4s", "100000", "", ""},
-		{"ato_inf/chunkdur_1", "testpic_2s/V300/99999.m4s", "100000", "", ""},
-		{"ato_1e30/chunkdur_1", "testpic_2s/V300/99999.m4s", "100000", "", ""},
+		{"ato_inf/chunkdur_1", "testpic_2s/V300/99999.m4s", "100000", "4xx", "chunked mode with ato_inf"},
+		{"ato_1.9/chunkdur_1", "testpic_2s/V300/99999.m4s", "100000", "", ""},
+		{"ato_1.9/chunkdur_1", "testpic_2s/V300/50.m4s", "100200", "", ""},
+		{"ato_1.999/chunkdur_1", "testpic_2s/V300/50.m4s", "100002", "", ""},
+		{"ato_2.0000001/chunkdur_1", "testpic_2s/V300/50.m4s", "100002", "4xx", "ato above the segment duration in chunked mode"},
+		{"ato_1.9/chunkdur_1/start_9223372036854775", "testpic_2s/V300/50.m4s", "100200", "", ""},
+		{"ato_1.9/chunkdur_1/start_-9223372036854775", "testpic_2s/V300/50.m4s", "100200", "", ""},
+		{"ato_1.9/chunkdur_1/timeoffset_-1e15", "testpic_2s/V300/50.m4s", "100200", "", ""},
+		{"ato_1.9/chunkdur_1/snr_-2147483648", "testpic_2s/V300/50.m4s", "100200", "", ""},
+		{"ato_1.9/chunkdur_1e300/tsbd_172800", "testpic_2s/V300/50.m4s", "100200", "", ""},
+		{"ato_1.9/chunkdur_1/segtimeline_1", "testpic_2s/V300/9000000.m4s", "100200", "", ""},
+		{"ato_1.9/chunkdur_1", "testpic_2s/A48/50.m4s", "100200", "", ""},
+		{"ato_7.9/chunkdur_1", "testpic_8s/V300/12.m4s", "100200", "", ""},
+		{"ato_7.9/chunkdur_1", "testpic_8s/V300/99999.m4s", "100200", "", ""},
+		{"ato_1e30/chunkdur_1", "testpic_2s/V300/99999.m4s", "100000", "4xx", "chunked mode with ato above the segment duration"},
 		{"ato_nan/chunkdur_1", "testpic_2s/V300/45.m4s", "100000", "4xx", "NaN"},
 		{"chunkdur_1", "testpic_2s/thumbs/45.jpg", "100000", "", ""},
 		{"snr_10", "testpic_2s/A48/5.m4s", "100000", "404", "number below startNumber"},
